@@ -3,8 +3,9 @@ C01 — Published tree is relying-party valid and says exactly what was configur
 
 Theorems over `Ca/RoaObjects.lean` (derivation of ROA/ASPA/router-certificate objects from the
 configuration), `Ca/Objects.lean` (manifests, repository synchronisation) and `Sys/Rp.lean` (an
-abstract relying party).  Helper lemmas: `Ca/RoaLemmas.lean`, `Ca/ObjLemmas*.lean`,
-`Sys/RpLemmas.lean`.
+abstract relying party) and `Sys/Tree.lean` (a hierarchy of CAs as a rose tree).  Helper lemmas:
+`Ca/RoaLemmas.lean`, `Ca/ObjLemmas*.lean`, `Sys/RpLemmas.lean`, `Sys/TreeLemmas.lean` (the walk over
+the hierarchy), `Sys/PointLemmas.lean` (one level with all kinds of objects).
 -/
 import KrillModel.Ca.RoaLemmas
 import KrillModel.Ca.ObjLemmas
@@ -12,6 +13,7 @@ import KrillModel.Ca.ObjLemmasSync
 import KrillModel.Sys.RpLemmas
 import KrillModel.Ca.ClassLemmas
 import KrillModel.Sys.TreeLemmas
+import KrillModel.Sys.PointLemmas
 namespace KM.Props.C01
 open KM.Ca.Pub KM.Sys.Rp
 
@@ -258,8 +260,8 @@ theorem tree_router_keys_exact (cat : Catalog) (now : Nat) (tree : Node) (fuel :
     (fun n hn => sameMembers_iff.mp (hok n hn).routerKeys) fuel tree (Node.mem_nodes_self tree) hfuel
 
 /-- Non-vacuity of the hypotheses of `tree_valid` … `tree_router_keys_exact`: the three-level
-hierarchy `Example.tree` (trust anchor → CA → child CA; ROAs at two levels, one ASPA, one router
-key, one configured-but-uncovered route and ASPA) has three nodes, each locally fine, with distinct
+hierarchy `Example.tree` (trust anchor → CA → child CA; ROAs at two levels, one ASPA, two router
+keys, one configured-but-uncovered route and ASPA) has three nodes, each locally fine, with distinct
 keys and depth 3. -/
 example : Example.tree.nodes.length = 3 ∧ (∀ n ∈ Example.tree.nodes, NodeOk Example.cat 1000 n) ∧
     Example.tree.subjects.Nodup ∧ Example.tree.depth ≤ 3 := by
@@ -277,8 +279,8 @@ example :
     Example.tree.expectedVrps = [Example.p2, Example.p1] ∧
     treeAspas Example.cat Example.tree.repo 3 Example.tree.ca = [Example.aspa1] ∧
     Example.tree.expectedAspas = [Example.aspa1] ∧
-    treeRouterKeys Example.cat Example.tree.repo 3 Example.tree.ca = [Example.rk1] ∧
-    Example.tree.expectedRouterKeys = [Example.rk1] ∧
+    treeRouterKeys Example.cat Example.tree.repo 3 Example.tree.ca = [Example.rk2, Example.rk1] ∧
+    Example.tree.expectedRouterKeys = [Example.rk2, Example.rk1] ∧
     -- too little fuel for the depth: not valid
     TreeValid Example.cat Example.tree.repo 1000 2 Example.tree.ca = false := by
   decide
@@ -297,5 +299,142 @@ example (fuel : Nat) : TreeValid Example.cat Example.badTree.repo 1000 fuel Exam
       decide (ch.ca ∈ childCerts Example.cat n.files n.ca)) = true := by decide
   intro n hn ch hch
   exact of_decide_eq_true (List.all_eq_true.mp (List.all_eq_true.mp h n hn) ch hch)
+
+/-! ### One CA level, all kinds of objects
+
+`ReadyAll ca s files now sp` (`Sys/PointLemmas.lean`) generalises `Ready`: the key set `s`
+publishes the objects described by `sp` – ROAs, ASPA objects, router certificates and child CA
+certificates – with the side conditions a relying party checks (window, unexpired, unrevoked,
+payload inside the key's certificate, child certificates issued by this key for resources inside
+its certificate).  `DecodesAll` is faithful decoding of manifest, CRL and every object. -/
+
+/-- A publication point holding ROAs, ASPA objects, router certificates and child CA certificates
+validates, and what a relying party extracts from it – route origins, ASPA definitions, router
+keys, CA certificates to descend into – is exactly what the objects carry. -/
+theorem one_level_all (cat : Catalog) (ca : Cert) (s : KeyObjectSet) (files : Files) (now : Nat) (sp : PointSpec)
+    (hd : DecodesAll cat ca.subject s sp) (h : ReadyAll ca s files now sp) :
+    PointValid cat files ca now = true ∧
+    (∀ p, p ∈ pointVrps cat files ca ↔ p ∈ sp.roas.flatMap (·.auths)) ∧
+    (∀ d, d ∈ pointAspas cat files ca ↔ d ∈ sp.aspas.map (·.defn)) ∧
+    (∀ k, k ∈ pointRouterKeys cat files ca ↔ k ∈ sp.routers.map (·.1)) ∧
+    (∀ c, c ∈ childCerts cat files ca ↔ c ∈ sp.certs.map (·.2)) :=
+  ⟨point_valid_all hd h, point_vrps_all hd h, point_aspas_all hd h, point_router_keys_all hd h,
+   child_certs_all hd h⟩
+
+/-- Non-vacuity: the key set of the middle CA of `Example.tree` – one ROA, one ASPA object, one
+router certificate, one child certificate, one earlier serial on the CRL – meets the hypotheses. -/
+example : DecodesAll Example.cat Example.mid.ca.subject Example.midSet Example.midSpec ∧
+    ReadyAll Example.mid.ca Example.midSet Example.mid.files 1000 Example.midSpec :=
+  ⟨Example.mid_decodes, Example.mid_ready⟩
+
+/-- It is a generalisation: the hypotheses of the ROA-only lemmas are the special case without
+other objects. -/
+theorem ready_is_special_case (nm : Naming) (cat : Catalog) (ca : Cert) (r : Roas) (s : KeyObjectSet)
+    (files : Files) (now : Nat) (hd : Decodes cat ca.subject r s) (h : Ready nm ca r s files now) :
+    DecodesAll cat ca.subject s { roas := infos r } ∧ ReadyAll ca s files now { roas := infos r } :=
+  ⟨hd.toAll, h.toAll⟩
+
+/-- One level ⇒ the local condition of the hierarchy: if moreover the objects say exactly what is
+configured and covered and the child certificates are the children's (`SpecExact`), the node is
+`NodeOk`. -/
+theorem node_ok_of_one_level (cat : Catalog) (now : Nat) (n : Node) (s : KeyObjectSet) (sp : PointSpec)
+    (hd : DecodesAll cat n.ca.subject s sp) (h : ReadyAll n.ca s n.files now sp) (hx : SpecExact n sp) :
+    NodeOk cat now n :=
+  nodeOk_of_readyAll hd h hx
+
+/-- `quiescent_valid_partial` as a statement about a node: a leaf CA with ROAs only, after any
+history of its class ending in a re-derivation and a repository synchronisation, is `NodeOk`
+(same hypotheses as `quiescent_valid_partial`; its two conclusions are the fields `valid` and
+`vrps`). -/
+theorem quiescent_leaf_node (nm : Naming) (hnm : nm.Ok) (t : Timing) (k : NewKey)
+    (ops₁ ops₂ : List ClassOp) (hops₁ : ∀ op ∈ ops₁, op.ok) (hnd : ∀ op ∈ ops₂, op.isDerive = false)
+    (routes : List Payload) (hroutes : routes.Nodup) (deagg agg : Nat)
+    (mintS : Payload → ObjMeta) (mintA : AggKey → ObjMeta) (i : IssueIn)
+    (ca : Cert) (rcn : Nat) (server : List (Uri × Nat)) (hsrv : (keys server).Nodup)
+    (cat : Catalog) (now : Nat) :
+    let c := (((ClassState.init k t).run nm t ops₁).step nm t
+      (.derive ca.resources.coversPfx routes deagg agg mintS mintA i)).run nm t ops₂
+    let files := filesAfterSync server rcn c.set
+    Decodes cat ca.subject c.roas c.set →
+    c.set.mftName = ca.mftName → c.set.crlName = ca.crlName → ca.mftName ≠ ca.crlName →
+    ca.mftName ∉ keys c.set.published → ca.crlName ∉ keys c.set.published →
+    (c.set.revision.thisUpdate ≤ now ∧ now < c.set.revision.nextUpdate) →
+    (∀ x ∈ infos c.roas, now < x.obj.expires) → (∀ x ∈ infos c.roas, x.obj.serial ∉ c.set.crl.revoked) →
+    NodeOk cat now (.mk ca files routes [] [] []) := by
+  intro c files hdec hm hc hne hmf hcf hwin hexp hrev
+  obtain ⟨ready, hpay⟩ := ready_of_history nm hnm t k ops₁ ops₂ hops₁ hnd routes hroutes deagg agg mintS mintA i
+    ca rcn server hsrv now hm hc hne hmf hcf hwin hexp hrev
+  exact nodeOk_of_ready (n := .mk ca files routes [] [] []) hdec ready hpay rfl rfl rfl
+
+/-! ### The whole hierarchy, composed
+
+Full statement (DESIGN `quiescent_valid`): for every history of API operations over a hierarchy of
+CAs, once the tasks are drained, `TreeValid` holds from the trust anchor and the validated payloads
+are exactly `⋃ configured(ca) ∩ covered-by-current-cert(ca)`. -/
+
+/-- **Composition over the hierarchy** (any depth, any branching).  Let `tree` describe the
+hierarchy at a quiescent instant: per certified key its certificate, the files at its publication
+point, the CA's configuration, and the keys certified below it.  Suppose every node's files are
+those of a key set in a state that is `ReadyAll` for objects `sp` which say exactly what is
+configured and covered (`SpecExact`).  Then a relying party that starts at the trust anchor
+accepts every publication point (current manifest and CRL, listed ⇔ present, every object
+acceptable), and the route origins, ASPA definitions and router keys it collects are exactly – as
+sets – the configured authorisations covered by a current certificate of the configuring CA.
+
+Which per-node hypotheses are conclusions of other theorems, per CA and for all histories:
+
+* `ReadyAll.good` (manifest lists the CRL and exactly the published objects, CRL = revocations,
+  numbers agree): `manifest_lists_exactly_always` / `objects_mirror` (GoodSet component).
+* `ReadyAll.filesNodup`, `ReadyAll.files` (server content = the set's elements, from ANY previous
+  server content): `sync_repo_exact`, in the form `filesAfterSync_spec`.
+* `ReadyAll.sound` / `complete` for the ROA objects, `roaNonempty`, `roaCovered` and
+  `SpecExact.roas`: `quiescent_valid_partial` (through `objects_mirror` and `roas_payloads_exact`;
+  `quiescent_leaf_node` is that theorem re-stated as `NodeOk` for a ROA-only leaf).
+* `SpecExact.aspas` and `aspaCovered`: `aspas_exact`.  `SpecExact.routers` and `routerCovered`:
+  `bgpsec_exact`.
+* `ReadyAll.certContained` (child certificates inside the key's own certificate): C02
+  `never_overclaims` (with `shrink_in_same_command`, `activation_keeps_containment`).
+
+Which remain assumptions, evaluated dynamically by the oracle on the implementation's own
+repository content (`RpTreeValid`, `PayloadsExact`, `objects_mirror` in the `sysobjects` driver,
+`NoOverclaimPublished` in the `syskeys` driver):
+
+* no current object is expired or on the CRL (`ReadyAll.unexpired`, `unrevoked`) and `now` is
+  inside the manifest window (`window`) – needs freshness of serial numbers and the re-issue
+  schedule (C14) as an invariant over histories;
+* faithful decoding and no hash collisions (`DecodesAll`);
+* `ReadyAll.sound` / `complete` for ASPA objects, router certificates and child certificates
+  (the key set mirrors the class for these kinds too – `objects_mirror` is proved for ROAs, one
+  key), and `certIssuer`;
+* `SpecExact.certs`: the certificates a parent publishes are exactly the current certificates of
+  its children's keys – parent and child agree once the child has fetched its entitlement, i.e.
+  when background work has caught up;
+* pairwise distinct publication-point keys (`tree.subjects.Nodup`), manifest / CRL names not used
+  by other objects (`mftFresh`, `crlFresh`, `namesDiffer`);
+* during a key roll each of the two keys of a class is a node of its own (C04). -/
+theorem quiescent_valid_tree (cat : Catalog) (now : Nat) (tree : Node) (fuel : Nat)
+    (hd : tree.subjects.Nodup) (hfuel : tree.depth ≤ fuel)
+    (hnode : ∀ n ∈ tree.nodes, ∃ (s : KeyObjectSet) (sp : PointSpec),
+      DecodesAll cat n.ca.subject s sp ∧ ReadyAll n.ca s n.files now sp ∧ SpecExact n sp) :
+    TreeValid cat tree.repo now fuel tree.ca = true ∧
+    (∀ n ∈ tree.nodes, PointValid cat n.files n.ca now = true) ∧
+    PayloadsExact (treeVrps cat tree.repo fuel tree.ca) tree.expectedVrps = true ∧
+    sameMembers (treeAspas cat tree.repo fuel tree.ca) tree.expectedAspas = true ∧
+    sameMembers (treeRouterKeys cat tree.repo fuel tree.ca) tree.expectedRouterKeys = true := by
+  have hok : ∀ n ∈ tree.nodes, NodeOk cat now n := by
+    intro n hn
+    obtain ⟨s, sp, h1, h2, h3⟩ := hnode n hn
+    exact nodeOk_of_readyAll h1 h2 h3
+  exact ⟨tree_valid cat now tree fuel hok hd hfuel, fun n hn => (hok n hn).valid,
+    tree_vrps_exact cat now tree fuel hok hd hfuel, tree_aspas_exact cat now tree fuel hok hd hfuel,
+    tree_router_keys_exact cat now tree fuel hok hd hfuel⟩
+
+/-- Non-vacuity of `quiescent_valid_tree`: the three-level hierarchy `Example.tree` with the key
+sets `Example.taSet`, `midSet`, `childSet` meets all hypotheses (the conclusion for it is also
+computed above). -/
+example : Example.tree.subjects.Nodup ∧ Example.tree.depth ≤ 3 ∧
+    ∀ n ∈ Example.tree.nodes, ∃ (s : KeyObjectSet) (sp : PointSpec),
+      DecodesAll Example.cat n.ca.subject s sp ∧ ReadyAll n.ca s n.files 1000 sp ∧ SpecExact n sp :=
+  ⟨by decide, by decide, Example.tree_nodes_ready⟩
 
 end KM.Props.C01
